@@ -46,6 +46,18 @@ pub fn on_store_access() -> bool {
 }
 
 pub use crate::engine::verif_engine as engine;
+
+// ---- H7: widen the window between the store actor leaving its loop and dropping its inbox
+static EXIT_PAUSE_MS: AtomicU64 = AtomicU64::new(0);
+pub fn set_actor_exit_pause_ms(ms: u64) {
+    EXIT_PAUSE_MS.store(ms, Ordering::SeqCst)
+}
+pub fn actor_exit_pause() {
+    let ms = EXIT_PAUSE_MS.load(Ordering::SeqCst);
+    if ms > 0 {
+        std::thread::sleep(std::time::Duration::from_millis(ms));
+    }
+}
 pub use crate::net::verif_net as net;
 
 // ---- H6: adapter that lets an external ordered-map backend be driven by the crate's reconciliation routine
